@@ -2758,7 +2758,9 @@ class FuncIsinstanceMonad(FuncMonad):
                 subclasses.add(cls)
                 subclasses.update(cls._subclasses_)
         if entity in subclasses:
-            return BoolExprMonad(['EQ', ['VALUE', 1], ['VALUE', 1]], nullable=False)
+            if isinstance(obj, ObjectIterMonad):
+                return BoolExprMonad(['EQ', ['VALUE', 1], ['VALUE', 1]], nullable=False)
+            return obj.nonzero()  # reference can be None, and isinstance(None, cls) is False
 
         subclasses.intersection_update(entity._subclasses_)
         if not subclasses:
